@@ -82,9 +82,18 @@ IdentOK(r) == LET T == r.T  v == DecAll(T, r.out)  d == Isqrt(r.n)
 FillOK(r) == LET T == r.T  v == DecAll(T, r.out)  a == Dec(T, r.a[1])
              IN  Len(v) = r.n /\ \A i \in 1..r.n : Same(T, v[i], a)
 
-Judge(r) == CASE r.e = "agglim" -> LimOK(r) [] r.e = "aggident" -> IdentOK(r) [] r.e = "aggfill" -> FillOK(r) [] r.e = "agg" -> AggOK(r) [] r.e = "aggeq" -> EqOK(r) [] r.e = "aggtol" -> TolOK(r)
+\* scalar * aggregate with a scalar of another type: the product is formed in the common type and converted once
+MixOK(r) ==
+    LET a == Dec(r.S, r.a[1])  h == DecAll(r.T, r.h)  out == DecAll(r.T, r.out) IN
+    \A i \in 1..Len(h) :
+      CASE r.S = "d" /\ r.T = "i32" -> D!DEq(D!DInt(out[i]), D!DMul(I!Val(I!Fmt64, a), D!DInt(h[i])))            \* the recorder keeps these products integral
+        [] r.S = "d" /\ r.T = "f" -> Same("f", out[i], I!Convert(I!Fmt64, I!Fmt32, I!FOp(I!Fmt64, "mul", a, I!Convert(I!Fmt32, I!Fmt64, h[i]))))
+        [] r.S = "f" /\ r.T = "d" -> Same("d", out[i], I!FOp(I!Fmt64, "mul", I!Convert(I!Fmt32, I!Fmt64, a), h[i]))
+        [] OTHER -> FALSE
+
+Judge(r) == CASE r.e = "aggmix" -> MixOK(r) [] r.e = "agglim" -> LimOK(r) [] r.e = "aggident" -> IdentOK(r) [] r.e = "aggfill" -> FillOK(r) [] r.e = "agg" -> AggOK(r) [] r.e = "aggeq" -> EqOK(r) [] r.e = "aggtol" -> TolOK(r)
               [] r.e = "agglayout" -> LayoutOK(r) [] r.e = "aggtext" -> TextOK(r) [] r.e = "aggconv" -> ConvOK(r) [] r.e = "aggtrait" -> TraitOK(r) [] OTHER -> FALSE
-What(r) == IF r.e = "agg" THEN <<r.e, r.fam, r.T, r.op, r.sp>> ELSE <<r.e, r.fam, r.T>>
+What(r) == IF r.e = "aggmix" THEN <<r.e, r.fam, r.S, r.T>> ELSE IF r.e = "agg" THEN <<r.e, r.fam, r.T, r.op, r.sp>> ELSE <<r.e, r.fam, r.T>>
 Init == l = 1 /\ cur = <<>> /\ key = <<>>
 Next == \/ /\ l <= TraceLen
            /\ LET r == Rec IN
